@@ -291,6 +291,10 @@ def _streams_case(ctx, rng, pstreams, flw, ds, shape, seq):
             call["strord"] = strord
     elif mask is not None:
         call["mask"] = _np_mask(mask, shape, rng)
+        if rng.random() < 0.4:
+            # documented: "if a mask is given the minimum stream order is ignored"
+            call["min_sto"] = rng.choice([2, 3])
+            ctx.count("mask+min_sto")
     if use_xy:
         call["xs"] = xs.reshape(shape) if rng.random() < 0.5 else xs
         call["ys"] = ys.reshape(shape)
